@@ -219,6 +219,10 @@ class G:
             return Obj([("$literal", self.scalar_lit())])
         return Obj([(r.choice(["$toUpper", "$abs", "$not"]), self.expr(depth + 1))])
 
+    def expr_obj(self, depth=0):
+        """an operator expression (never a bare literal)"""
+        return Obj([(self.r.choice(EXPR_OPS), [self.expr(depth + 1) for _ in range(1 + self.r.below(3))])])
+
     def update_doc(self):
         r = self.r
         if r.chance(1, 6):  # replacement document
@@ -369,10 +373,10 @@ class G:
         if k == 15:
             return Obj([("$out", self.coll() if r.chance(1, 2) else Obj([("db", self.dbname()), ("coll", self.coll())]))])
         if k == 16:
-            return Obj([("$bucket", Obj([("groupBy", r.choice([self.ref(), self.expr(1)])), ("boundaries", [self.num(), self.num(), self.sstr()]), ("default", self.sstr()),
+            return Obj([("$bucket", Obj([("groupBy", r.choice([self.ref(), self.expr_obj(1)])), ("boundaries", [self.num(), self.num(), self.sstr()]), ("default", self.sstr()),
                                          ("output", Obj([(self.field(), Obj([("$sum", Num("1"))]))]))]))])
         if k == 17:
-            return Obj([("$sortByCount", r.choice([self.ref(), self.expr(1)]))])
+            return Obj([("$sortByCount", r.choice([self.ref(), self.expr_obj(1)]))])
         if k == 18:
             return Obj([("$replaceRoot", Obj([("newRoot", r.choice([self.ref(), Obj([(self.field(), self.sstr())]), Obj([("$mergeObjects", [Obj([(self.field(), self.sstr())]), "$$ROOT"])])]))]))])
         if k == 19:
@@ -498,8 +502,8 @@ class G:
             if r.chance(2, 3):
                 attr.set(kk, vv)
         msg = "Slow query" if r.chance(3, 4) else "command"
-        return Obj([("t", Obj([("$date", "2024-05-0%dT12:00:0%d.123+00:00" % (1 + r.below(9), r.below(10)))])), ("s", "I"), ("c", comp), ("id", Num("51803")),
-                    ("ctx", "conn%d" % r.below(9999)), ("msg", msg), ("attr", attr)])
+        return dedupe(Obj([("t", Obj([("$date", "2024-05-0%dT12:00:0%d.123+00:00" % (1 + r.below(9), r.below(10)))])), ("s", "I"), ("c", comp), ("id", Num("51803")),
+                           ("ctx", "conn%d" % r.below(9999)), ("msg", msg), ("attr", attr)]))
 
     def command_nogetmore(self):
         while True:
